@@ -114,27 +114,44 @@ def vouch_nontrivial(s, rows):
 
 
 def _vouch_interest(h):
-    """reorgs that a later head event of the same epoch can show, head events, slow bodies"""
-    score, reorg_at = 0, None
-    half = 0
+    """reorgs that a later head event of the same epoch can show (most of all beside a job body that outlives its
+    slot in that epoch: a validator moved to another slot while its first job is still under way), head events,
+    slow bodies"""
+    p, slot = h[0]["p"], h[0]["start"]
+    duty = {(d["e"], d["w"], d["v"]): d["slot"] for d in h[0]["duties"]}
+    vals = h[0]["vals"]
+    score, last_head = 0, 0
+    ver, acted = {}, {}                 # version in force / version the controller last acted on, per epoch
+    moved_later = set()                 # slots whose job was overtaken: a validator moved from it to a later slot of the epoch
     for st in h[1:]:
-        if st["ev"] in ("Phase", "Advance"):
-            half += 1
-            if st.get("slow"):
+        if st["ev"] == "Advance":
+            slot += 1
+            for s in st.get("slow") or []:
                 score += 2
+                if s in moved_later:    # ... while its body is still under way: two jobs for one validator and epoch overlap
+                    score += 40
         elif st["ev"] == "Reorg":
-            reorg_at = half
+            ver[st["e"]] = ver.get(st["e"], 0) + 1
         elif st["ev"] == "Head":
+            e = slot // p
             score += 1
-            if reorg_at is not None and half - reorg_at <= 2:
+            # the controller compares with the roots of the last head event (none while that was in epoch 0)
+            if last_head != 0 and last_head in (e, e - 1) and ver.get(e, 0) != acted.get(e, 0):
+                old, new = acted.get(e, 0), ver.get(e, 0)
                 score += 4
-                reorg_at = None
+                for v in vals:
+                    a, b = duty.get((e, old, v)), duty.get((e, new, v))
+                    if a is not None and b is not None and a <= slot < b:
+                        moved_later.add(a)
+                        score += 4
+                acted[e] = new
+            last_head = e
     return score
 
 
 def vouch_scenarios(tier):
     want = 8 if tier == "quick" else 72
-    hs = vf.tlc_scenarios(PID, "Scen_Vouch", "Scen_Vouch.cfg", num=want * 5, depth=700, name="scen-vouch",
+    hs = vf.tlc_scenarios(PID, "Scen_Vouch", "Scen_Vouch.cfg", num=want * (12 if tier == "quick" else 5), depth=700, name="scen-vouch",
                           timeout=300 if tier == "quick" else 900)
     # keep fast track on/off balanced, the most eventful first (stable: seeded)
     on = sorted([h for h in hs if h[0]["ft"]], key=_vouch_interest, reverse=True)
